@@ -15,7 +15,7 @@ def sh(cmd, **kw): return subprocess.run(cmd, shell=True, capture_output=True, t
 assert sh(f"git -C {R} status --porcelain").stdout.strip() == "", "repo not clean"
 rows = []
 for sid in sorted(os.listdir(f"{V}/seeded")):
-    if only and sid not in only: continue
+    if not os.path.isdir(f"{V}/seeded/{sid}") or (only and sid not in only): continue
     d = f"{V}/seeded/{sid}"; meta = json.load(open(f"{d}/meta.json"))
     props = checks or meta.get("run_checks") or [meta["property"]]
     first = f"{d}/patch_rebased.diff" if os.path.exists(f"{d}/patch_rebased.diff") else f"{d}/patch.diff"
